@@ -12,14 +12,15 @@ import re
 REG = json.load(open(os.path.join(HOME, 'lean', 'registry.json')))
 # translated (regenerated from the source on every run) functions whose refinement theorems are obligations of the property
 TRANSLATED = {
-    'C01': '_generate_transition_count_matrix, row_normalize_matrix, _estimate_markov_model',
+    'C01': 'StateTraj.__init__, _generate_transition_count_matrix, row_normalize_matrix, _estimate_markov_model',
     'C11': '_generate_transition_count_matrix, _estimate_markov_model, the md event / pathway kernels and their public wrappers',
     'C05': 'the five dynamical-coring kernels and the public wrapper md.dynamical_coring',
     'C06': 'the five event / waiting-time / pathway kernels, _intersect and the public wrappers md.estimate_waiting_times / md.estimate_paths',
     'C07': '_propagate_MCMC_step, _propagate_MCMC, _get_cummat, the public wrapper propagate_MCMC',
     'C08': '_estimate_waiting_times, _estimate_transition_times (msm), _get_cummat, _estimate_times (list and histogram form), StateTraj.state_to_idx',
     'C13': '_intersect, _intersect_array, _compare_trajs_symmetric, _compare_trajs_directed, _compare_discretization (both methods)',
-    'C20': 'runningmean', 'C16': 'open_limits',
+    'C20': 'runningmean', 'C16': 'open_limits', 'C15': 'unique, shift_data, rename_by_index, rename_by_population (list-of-arrays form)',
+    'C02': 'StateTraj.__init__ and the relabelling utilities it uses', 'C17': 'StateTraj.__init__, rename_by_index, shift_data',
     'C14': 'is_quadratic, is_transition_matrix, is_ergodic, is_fuzzy_ergodic, ergodic_mask',
     'C04': 'equilibrium_population (LAPACK eigen-solver as an oracle with the contract v M = v, v != 0), is_ergodic, ergodic_mask, row_normalize_matrix', 'C03': 'LumpedStateTraj._estimate_markov_model (Hummer-Szabo projection), row_normalize_matrix, is_ergodic',
     'C09': '_calc_times', 'C19': '_split_array, open_limits',
